@@ -13,14 +13,14 @@ import (
 
 // Clause is one contract clause.
 type Clause struct {
-	Kind  string // requires | ensures | invariant | assume | cover
-	Label string
-	Tags  []string
-	Expr  *SX
-	Loop  int    // for invariants: loop ordinal (1-based)
+	Kind   string // requires | ensures | invariant | assume | cover
+	Label  string
+	Tags   []string
+	Expr   *SX
+	Loop   int // for invariants: loop ordinal (1-based)
 	Theory string
-	Src   string // file:line
-	Raw   string
+	Src    string // file:line
+	Raw    string
 }
 
 // Contract is the contract of one function (or abstract callee).
@@ -43,31 +43,31 @@ type Contract struct {
 	NoBody    bool
 	SafeUnder *SX // automatic safety obligations are claimed only under this condition
 	Uses      []string
-	BoxPtr    []string // pointer parameters that always point to heap-allocated cells (never into objects)
+	BoxPtr    []string    // pointer parameters that always point to heap-allocated cells (never into objects)
 	Waive     [][2]string // obligation-name suffix, reason: assumed instead of checked (listed)
-	AfterCall []*Clause // must hold right after every abstract (external) call: crash points
+	AfterCall []*Clause   // must hold right after every abstract (external) call: crash points
 }
 
 // ContractSet holds all contracts of one package plus raw SMT prelude text.
 type ContractSet struct {
-	ByName  map[string]*Contract
-	Prelude []PreludeItem // raw SMT commands (define-fun, declare-fun, assert ...) in order
-	curTheory string
-	Ghost   []GhostDecl
-	Lemmas  []*Clause
-	Assumes []string // textual list of assumptions declared in the file
-	Files   []string
+	ByName     map[string]*Contract
+	Prelude    []PreludeItem // raw SMT commands (define-fun, declare-fun, assert ...) in order
+	curTheory  string
+	Ghost      []GhostDecl
+	Lemmas     []*Clause
+	Assumes    []string // textual list of assumptions declared in the file
+	Files      []string
 	Directives [][3]string // keyword, rest, src
-	Inducts []*Induct
+	Inducts    []*Induct
 }
 
 // Induct is an induction schema: base and step are proved, the conclusion becomes an axiom.
 type Induct struct {
-	Label string
-	Tags  []string
-	Var   string
-	Body  *SX
-	Src   string
+	Label  string
+	Tags   []string
+	Var    string
+	Body   *SX
+	Src    string
 	Theory string
 }
 
